@@ -252,6 +252,11 @@ Table == {
   Occ(208, "file/exists", {4}, "file.move"), Occ(209, "file/exists", {31}, "alias.make"),
   Occ(207, "file.rename/exists", {3}, "file.rename"),
   One(112, "new/chat", {11}, "chat.open"),
+  (* account-administration requests that name the requester's own account: the same privilege governs them *)
+  One(353, "set/self", {17}, "acct.modify"), One(351, "del/self", {15}, "acct.delete"),
+  One(352, "get/self", {16}, "acct.read"),
+  One(349, "modify/self", {17}, "acct.modify"), One(349, "rename/self", {17}, "acct.modify"),
+  One(349, "delete/self", {15}, "acct.delete"),
   (* requester-state variants *)
   AnyName(304, "name@old", "old"), AnyName(304, "name@pre", "pre"), AnyName(304, "name@noname", "noname"),
   AnyName(121, "name@old", "old"), AnyName(121, "name@noname", "noname"), AnyName(121, "name@agreed", "agreed"),
@@ -392,6 +397,30 @@ Upd(s) ==
   /\ last' = s /\ fx' = {"acct.modify"} /\ rep' = "ok"
   /\ UNCHANGED <<cap, live, banned, nm>>
 
+(* Multi: the account "victim" (access s.a0) has s.n live sessions; an administrator changes it to s.a1 (Set User 353
+   or the modify branch of Update User 349); then either the administrator sends Disconnect User (ban option s.ban)
+   against session number s.k, or session number s.k asks for a new account with access s.want (request s.via).
+   Every session of an account is that account, and the account is what it is now: a session of an account that has
+   just been marked cannot-be-disconnected is protected; an account created by a session of an account that has just
+   lost a privilege does not get that privilege. *)
+Multi(s) ==
+  LET a1 == [accts EXCEPT !["req"] = Priv, !["victim"] = s.a1]
+      kickOK == 23 \notin s.a1
+      createOK == 14 \in s.a1 /\ s.want \subseteq s.a1
+  IN
+  /\ last' = s /\ nm' = nm
+  /\ IF s.kind = "kick"
+       THEN /\ accts' = a1 /\ cap' = cap
+            /\ rep' = IF kickOK THEN "ok" ELSE "refused"
+            /\ fx' = IF kickOK THEN {"user.disconnect"} \cup (IF s.ban > 0 THEN {"user.ban"} ELSE {}) ELSE {}
+            /\ live' = IF kickOK THEN live ELSE live \cup {"victim"}      \* ("victim": its session number s.k)
+            /\ banned' = IF kickOK /\ s.ban > 0 THEN banned \cup {"victim"} ELSE banned
+       ELSE /\ accts' = IF createOK THEN a1 @@ ("newacct" :> s.want) ELSE a1
+            /\ cap' = IF createOK THEN cap @@ ("newacct" :> s.a1) ELSE cap
+            /\ rep' = IF createOK THEN "ok" ELSE "refused"
+            /\ fx' = IF createOK THEN {"acct.create"} ELSE {}
+            /\ UNCHANGED <<live, banned>>
+
 Guard(s) ==
   CASE s.op = "handle" -> HasRow(s.t, s.k) /\ s.acc \subseteq Priv /\ s.rd \in {"atomic", "partial"}
     [] s.op = "create" -> s.by \in DOMAIN accts /\ s.want \subseteq Priv /\ s.via \in {349, 350} /\ s.shape \in Shapes
@@ -399,6 +428,9 @@ Guard(s) ==
                           /\ s.third \in {"none", "same", "other"} /\ s.pacc \subseteq Priv /\ s.shared \in BOOLEAN
     [] s.op = "rt"     -> s.S \subseteq Priv
     [] s.op = "upd"    -> s.S \subseteq Priv /\ s.old \subseteq Priv /\ s.via \in {349, 353}
+    [] s.op = "multi"  -> s.kind \in {"kick", "create"} /\ s.edit \in {349, 353} /\ s.n \in 1..3 /\ s.k \in 1..s.n
+                          /\ s.a0 \subseteq Priv /\ s.a1 \subseteq Priv /\ s.ban \in {0, 1, 2} /\ s.via \in {349, 350}
+                          /\ s.want \subseteq Priv
     [] OTHER -> FALSE
 
 Apply(s) ==
@@ -407,9 +439,10 @@ Apply(s) ==
     [] s.op = "kick"   -> Kick(s)
     [] s.op = "rt"     -> Rt(s)
     [] s.op = "upd"    -> Upd(s)
+    [] s.op = "multi"  -> Multi(s)
 
 (* ---- properties ----------------------------------------------------------- *)
-Actor == IF last.op = "create" THEN last.by ELSE "req"
+Actor == IF last.op = "create" THEN last.by ELSE IF last.op = "multi" /\ last.kind = "create" THEN "victim" ELSE "req"
 
 (* C05: whatever happened is governed by a privilege the actor holds *)
 NoEffectWithoutPrivilege == \A e \in fx : Gov[e] \subseteq accts[Actor]
